@@ -70,6 +70,13 @@ Definition isnil {A} (l : list A) : bool := match l with [] => true | _ => false
 Fixpoint nodupb (l : list Z) : bool :=
   match l with [] => true | x :: t => negb (mem x t) && nodupb t end.
 
+Fixpoint zlist_eqb (a b : list Z) : bool :=
+  match a, b with
+  | [], [] => true
+  | x :: a', y :: b' => (x =? y) && zlist_eqb a' b'
+  | _, _ => false
+  end.
+
 (* Table.next_row_id: max + 1 (1 for an empty table) *)
 Definition next_id (ids : list Z) : Z := 1 + fold_right Z.max 0 ids.
 
@@ -623,51 +630,55 @@ Definition regroup_target (r : regroup) (m : meta) : res (meta * Z) :=
                 rg_target r)
   else Fail.
 
-(* fields deleted, fields moved, new fields, then the section shows the target table *)
+(* update_summary_section on the fields of the section (delete_fields; the colRef updates of e.g. ae5ee6e; the
+   new group-by fields): a field of the section is moved when the caller names its new column, else it is
+   deleted; fields of other sections are not touched; then the section shows the target table *)
+Definition moved (r : regroup) (f : frec) : bool :=
+  match lookup (f_id f) (rg_remap r) with Some _ => true | None => false end.
+
 Definition regroup_fields (r : regroup) (tgt : Z) (m1 : meta) : meta :=
-  let m2 := rm_fields (rg_dels r) m1 in
-  let m3 := set_fields m2 (map (fun f => match lookup (f_id f) (rg_remap r) with
-                                         | Some c => with_fcol c f | None => f end) (m_fields m2)) in
-  let m4 := add_fields (rg_sec r) (rg_new r) m3 in
-  upd_section (rg_sec r) (with_stable tgt) m4.
+  let sec := rg_sec r in
+  let kept := filter (fun f => negb (f_section f =? sec) || moved r f) (m_fields m1) in
+  let m3 := set_fields m1 (map (fun f => if f_section f =? sec
+                                         then match lookup (f_id f) (rg_remap r) with
+                                              | Some c => with_fcol c f | None => f end
+                                         else f) kept) in
+  let m4 := add_fields sec (rg_new r) m3 in
+  upd_section sec (with_stable tgt) m4.
 
-Definition apply_regroup (r : regroup) (m : meta) : res meta :=
-  bind (regroup_target r m) (fun '(m1, tgt) => Ok (regroup_fields r tgt m1)).
+Definition sec_is_raw (m : meta) (sec : Z) : bool := existsb (fun t => t_raw t =? sec) (m_tables m).
+Definition sec_is_card (m : meta) (sec : Z) : bool := existsb (fun t => t_card t =? sec) (m_tables m).
 
-(* What update_summary_section is meant to guarantee, and what the two defects break: the section is not the
-   raw or record-card section of a table; only fields of the section are moved; afterwards every field of the
-   section shows a column of the target table. *)
-Definition regroup_guard (r : regroup) (tgt : Z) (m1 : meta) : bool :=
-  negb (existsb (fun t => (t_raw t =? rg_sec r) || (t_card t =? rg_sec r)) (m_tables m1)) &&
-  forallb (fun f => (f_section f =? rg_sec r) ||
-                    match lookup (f_id f) (rg_remap r) with Some _ => false | None => true end) (m_fields m1) &&
-  forallb (fun f => negb (f_section f =? rg_sec r) ||
-                    col_of_section (regroup_fields r tgt m1) (rg_sec r) (f_col f))
-          (m_fields (regroup_fields r tgt m1)).
-
-Definition apply_regroup_guarded (r : regroup) (m : meta) : res meta :=
+(* raw_allowed: the user action UpdateSummaryViewSection does not refuse the raw section of a summary table
+   (doBulkUpdateRecord lets tableRef of such a section change); doRemoveColumns skips raw sections.  The
+   columns named by the caller must be columns of the target table; record-card sections of summary tables do
+   not occur (summary tables are created without one). *)
+Definition apply_regroup (raw_allowed : bool) (r : regroup) (m : meta) : res meta :=
   bind (regroup_target r m) (fun '(m1, tgt) =>
-    if regroup_guard r tgt m1 then Ok (regroup_fields r tgt m1) else Unmodelled).
-
-Fixpoint apply_regroups_guarded (rs : list regroup) (m : meta) : res meta :=
-  match rs with [] => Ok m | r :: t => bind (apply_regroup_guarded r m) (apply_regroups_guarded t) end.
+    if sec_is_card m1 (rg_sec r) then Unmodelled
+    else if negb (cols_of_table m1 (map snd (rg_remap r) ++ rg_new r) tgt) then Unmodelled
+    else if sec_is_raw m1 (rg_sec r) && negb raw_allowed then Unmodelled
+    else Ok (regroup_fields r tgt m1)).
 
 Fixpoint apply_regroups (rs : list regroup) (m : meta) : res meta :=
-  match rs with [] => Ok m | r :: t => bind (apply_regroup r m) (apply_regroups t) end.
+  match rs with [] => Ok m | r :: t => bind (apply_regroup false r m) (apply_regroups t) end.
 
-(* _removeColumnRecords for source columns of group-by columns: doRemoveColumns first regroups every section
-   of the summary tables concerned (UpdateSummaryViewSection on all of tbl.viewSections) *)
+(* the sections doRemoveColumns regroups: for every summary table with a group-by column based on a removed
+   column (sorted), its view sections except the raw one *)
+Definition regroup_sections (cols : list Z) (m : meta) : list Z :=
+  concat (map (fun t => map s_id (filter (fun s => (s_table s =? t_id t) && negb (s_id s =? t_raw t))
+                                         (m_sections m)))
+              (filter (fun t => existsb (fun c => (c_parent c =? t_id t) && mem (c_src c) cols) (m_columns m))
+                      (m_tables m))).
+
+(* _removeColumnRecords for source columns of group-by columns: doRemoveColumns first runs
+   UpdateSummaryViewSection on those sections *)
 Definition remove_columns_regroup (cols : list Z) (rs : list regroup) (m : meta) : res meta :=
   if negb (all_in cols (cids m)) then Fail
   else if negb (nodupb cols) then Unmodelled
   else if existsb (fun c => mem (c_id c) cols && negb (c_src c =? 0)) (m_columns m) then Fail
+  else if negb (zlist_eqb (map rg_sec rs) (regroup_sections cols m)) then Unmodelled
   else bind (apply_regroups rs m) (remove_columns_core cols).
-
-Definition remove_columns_regroup_guarded (cols : list Z) (rs : list regroup) (m : meta) : res meta :=
-  if negb (all_in cols (cids m)) then Fail
-  else if negb (nodupb cols) then Unmodelled
-  else if existsb (fun c => mem (c_id c) cols && negb (c_src c =? 0)) (m_columns m) then Fail
-  else bind (apply_regroups_guarded rs m) (remove_columns_core cols).
 
 (* ---------------------------------------------------------------------------------------------- *)
 (* DocModel.apply_auto_removes, repeated by Engine.apply_user_actions after the last user action of a bundle
@@ -739,25 +750,24 @@ Definition step (o : op) (m : meta) : res meta :=
   | OSetCustom s b => set_custom s b m
   | ORenameTable t name => rename_table t name m
   | OCreateSummary src v gb name gbkinds fkinds => create_summary src v gb name gbkinds fkinds m
-  | ORegroup r => apply_regroup r m
+  | ORegroup r => apply_regroup true r m
   | ORemoveColumnsG cols rs => remove_columns_regroup cols rs m
   | ONoMeta => Ok m
   | OUnmodelled => Unmodelled
   end.
 
-(* the two actions that run update_summary_section on sections chosen by the code (doRemoveColumns passes every
-   view section of the summary table, its raw section included) are kept apart: see Props/C09.v *)
+(* the one action that still can break the property: the user action UpdateSummaryViewSection accepts the raw
+   section of a summary table (see Props/C09.v) *)
 Definition regroups_op (o : op) : bool :=
-  match o with ORegroup _ | ORemoveColumnsG _ _ => true | _ => false end.
+  match o with ORegroup _ => true | _ => false end.
 
 Fixpoint steps (os : list op) (m : meta) : res meta :=
   match os with [] => Ok m | o :: t => bind (step o m) (steps t) end.
 
-(* the same actions with update_summary_section under its guard *)
+(* the same actions, UpdateSummaryViewSection restricted to sections that are not raw sections *)
 Definition step_guarded (o : op) (m : meta) : res meta :=
   match o with
-  | ORegroup r => apply_regroup_guarded r m
-  | ORemoveColumnsG cols rs => remove_columns_regroup_guarded cols rs m
+  | ORegroup r => apply_regroup false r m
   | _ => step o m
   end.
 
